@@ -476,6 +476,8 @@ func (w *vpWorld) symbolicPreState() {
 		lbOpts, vbOpts, pbOpts, partsOpts = []int8{cA}, []int8{cA}, []int8{cNone, cA}, 1
 	case vpSlicePolProposal:
 		lbOpts, vbOpts, pbOpts, partsOpts = []int8{cNone}, []int8{cNone}, []int8{cA}, 1
+	case vpSliceLockedVsProposal:
+		lbOpts, vbOpts, pbOpts, partsOpts = []int8{cA}, []int8{cA}, []int8{cB}, 1
 	}
 	if lb := pick("LockedBlock", lbOpts); lb != cNone {
 		cs.LockedBlock, cs.LockedBlockParts = w.blocks[lb].block, w.blocks[lb].parts
@@ -499,7 +501,7 @@ func (w *vpWorld) symbolicPreState() {
 	if w.slice == vpSliceLockFocus || w.slice == vpSliceLockFocusTop {
 		ppOpts = []int8{cNone}
 	}
-	if w.slice == vpSlicePolProposal {
+	if w.slice == vpSlicePolProposal || w.slice == vpSliceLockedVsProposal {
 		ppOpts = []int8{cA}
 	}
 	if pp := pick("Proposal", ppOpts); pp != cNone {
@@ -875,6 +877,10 @@ const (
 const vpSlicePolProposal = 5 // not locked, no valid block, complete proposal block A with its proposal message (any POL round); votes of the current height for nil/A/B
 
 func VP_C02_Step_R1_vote_polproposal() { vpC02Step(1, 0, vpSlicePolProposal) }
+
+const vpSliceLockedVsProposal = 6 // locked on A (valid block A) and holding a complete proposal for another block B with its proposal message (any POL round); votes of the current height for nil/A/B
+
+func VP_C02_Step_R2_timeout_lockedvsproposal() { vpC02Step(2, 1, vpSliceLockedVsProposal) }
 
 const vpSliceLockFocusTop = 4 // as vpSliceLockFocus, and the node is in the highest modelled round
 
